@@ -153,6 +153,8 @@ type Engine struct {
 	loopAllocMemo map[string]bool
 	fnAllocMemo   map[*ssa.Function]bool
 	dumped        bool
+	backEdgeFeas  bool
+	profile       map[string]int
 	eager         map[string]bool
 	lazyPanics    []Obl
 }
@@ -702,7 +704,15 @@ func (e *Engine) advance(c *Config, rest func(c *Config)) {
 			inconclusive("fell off block %s in %s", f.blk, f.fn)
 		}
 		ins := f.blk.Instrs[f.idx]
+		t0 := TS.next
+		pos0 := ""
+		if e.profile != nil {
+			pos0 = fmt.Sprintf("%s b%d.%d %T", f.fn.Name(), f.blk.Index, f.idx, ins)
+		}
 		cont := e.exec(c, f, ins, rest)
+		if e.profile != nil {
+			e.profile[pos0] += TS.next - t0
+		}
 		if !cont {
 			return
 		}
@@ -747,6 +757,10 @@ func (e *Engine) jump(c *Config, f *Frame, to *ssa.BasicBlock) bool {
 		if len(f.loops) > 0 && f.loops[len(f.loops)-1].h == to && li.isBack[[2]int{from.Index, to.Index}] {
 			f.loops[len(f.loops)-1].iter++
 			f.loops[len(f.loops)-1].unw++
+			if e.backEdgeFeas && !e.feasible(c.g) {
+				c.g = TS.False
+				return false
+			}
 			if f.loops[len(f.loops)-1].unw > e.unwind {
 				e.unwindFail = Or(e.unwindFail, c.g)
 				p := e.prog.Fset.Position(to.Instrs[0].Pos())
@@ -908,7 +922,7 @@ func (e *Engine) feasible(g *Term) bool {
 	if g.IsFalse() {
 		return false
 	}
-	if g.IsTrue() || e.noFeas {
+	if g.IsTrue() {
 		return true
 	}
 	if e.feasMemo == nil {
